@@ -27,6 +27,8 @@ type Call struct {
 	Err     string
 	// OnBehalf is set by the harness for calls it makes itself (the adversary).
 	Adversary bool
+	// Stamp orders the call among other harness-observed events (see Ledger.Stamp).
+	Stamp int64
 }
 
 func (c Call) String() string {
@@ -79,6 +81,10 @@ type Ledger struct {
 	waiting  int // goroutines inside Timeout.Wait
 	waitAt   []int64
 	wake     chan struct{} // closed and replaced on every clock change
+	// Stamp, if set, returns the next value of a counter shared with other observers, so that
+	// ledger events can be ordered against e.g. publications to the watcher.
+	Stamp func() int64
+	waits []WaitRecord
 	// Complaints are things a ledger call did that an honest client must never do
 	// (e.g. a register call with an invalid signature). The checks decide who made the call.
 	changed chan struct{}
@@ -199,8 +205,29 @@ func (l *Ledger) Now() int64 {
 	return l.clock
 }
 
+// WaitRecord notes that a subscriber of a channel finished what it was doing and blocked in Next.
+type WaitRecord struct {
+	ID    channel.ID
+	Stamp int64
+}
+
+// Waits returns the record of subscribers going back to waiting.
+func (l *Ledger) Waits() []WaitRecord {
+	l.mu.Lock()
+	defer l.mu.Unlock()
+	return append([]WaitRecord(nil), l.waits...)
+}
+
+func (l *Ledger) stamp() int64 {
+	if l.Stamp != nil {
+		return l.Stamp()
+	}
+	return 0
+}
+
 func (l *Ledger) logCall(c Call) {
 	c.Seq = len(l.calls)
+	c.Stamp = l.stamp()
 	c.Time = l.clock
 	l.calls = append(l.calls, c)
 }
@@ -375,6 +402,9 @@ func (s *Subscription) Next() channel.AdjudicatorEvent {
 			s.inNext = false
 			l.mu.Unlock()
 			return nil
+		}
+		if !s.inNext {
+			l.waits = append(l.waits, WaitRecord{s.id, l.stamp()})
 		}
 		s.inNext = true
 		l.mu.Unlock()
